@@ -519,3 +519,61 @@ for _k, _v in _ADDED.items():
                               "meets a construct it cannot read prints "
                               "UNDECIDED (no verdict from that rule, exit "
                               "code unaffected) instead of a violation.")
+
+
+# Clauses added after round 6 (DESIGN.md 9.12): (property, text it follows,
+# replacement)
+_AMEND = [
+    ("C02", "Only the two documented errors are raised explicitly (R6). "
+            "Stdlib names exist; no Random.sample of a set (R7).",
+     "Only the two documented errors are raised explicitly, and a random "
+     "draw from a population the function itself shrinks is made under a "
+     "non-emptiness test still in force (R6). Stdlib names exist; no "
+     "Random.sample of a set; no container filled with one shared mutable "
+     "object (dict.fromkeys(keys, []), [[]]*n) whose entries are changed in "
+     "place (R7)."),
+    ("C05", "only InsufficientResourceError is raised (R4).",
+     "only InsufficientResourceError is raised, and Machine.__setitem__ "
+     "records a chip's resources on every normal path so that machine[xy], "
+     "the bound, is what was last assigned (R4)."),
+    ("C07", "(must-analysis, R1).",
+     "(must-analysis, R1). The SDP header bytes carry the destination chip "
+     "and core at their full field width (C15-R1, re-run here)."),
+    ("C08", "Tags reach every required ancestor, no early exit (R6).",
+     "Tags reach every required ancestor, no early exit (R6). The derived "
+     "bit field made by __call__ is given the length and field tree of the "
+     "one it is derived from (R2)."),
+    ("C11", "spiral bounds are truncated quotients (R3).",
+     "spiral bounds are truncated quotients (R3). Every call of a geometry "
+     "function anywhere in rig passes axis-named variables (width/height, "
+     "x/y, root_x/root_y) to the parameter of the same axis (R5)."),
+    ("C14", "every routed chip probed (R2).",
+     "every routed chip probed, and every exception class the transport "
+     "raises for an unanswered command derives from the class the probe's "
+     "handler catches (R2)."),
+    ("C14", "iobuf chain and router counter reads (R6).",
+     "iobuf chain and router counter reads; each status field decoded with "
+     "its own format at its own offset (R6)."),
+    ("C15", "compares with the documented SDP header (R1);",
+     "compares with the documented SDP header, by absolute byte offset "
+     "(constant zero padding + format); a range test in the constructor "
+     "refuses a field only above the top of its header field (R1);"),
+    ("C18", "Connection choice and the geometry index formula (R5).",
+     "Connection choice and the geometry index formula (R5). A new context "
+     "holds exactly the keyword arguments it was created with (R2)."),
+    ("C20", "and the updated structs are returned (R3).",
+     "the updated structs are returned, and the image and struct files read "
+     "are the caller's unless that very argument is None (R3)."),
+    ("C01", "of the same allocation slice (R3).",
+     "of the same allocation slice and each core route names the loop's own "
+     "element (R3)."),
+    ("C04", "down-check table[insertion_index:] through aliases,",
+     "down-check table[insertion_index:] through aliases with no entry left "
+     "out by another test,"),
+    ("C19", "wrap results modulo the machine size,",
+     "wrap results modulo the machine size (a wrap written with tests must "
+     "move each coordinate by its own dimension),"),
+]
+for _k, _old, _new in _AMEND:
+    assert _old in CHECKS[_k]["text"], (_k, _old)
+    CHECKS[_k]["text"] = CHECKS[_k]["text"].replace(_old, _new, 1)
